@@ -82,6 +82,28 @@ def splitChars : List UInt8 → Option (List (List UInt8))
       | [] => none
     else none
 
+/-- After a prefix of supported characters, does the text continue with something `tickit_utf8_ncount` certainly
+    rejects (`put_string` then returns -1 and draws nothing)?  A C0 control or DEL, a byte `0x80..0xbf` or
+    `0xf8..0xff` in lead position, a C1 control (`c2 80..9f`), or a multi-byte lead with fewer bytes left than the
+    sequence needs (`len < nbytes` in `next_utf8`).  `false` = not recognised (no prediction). -/
+def rejectedText : List UInt8 → Bool
+  | [] => false
+  | b :: rest =>
+    if 0x20 ≤ b ∧ b < 0x7f then rejectedText rest
+    else if b = 0 then false                                   -- a NUL ends the count: accepted, shorter
+    else if b < 0x20 ∨ b = 0x7f then true                       -- C0 control, DEL (wcwidth -1)
+    else if b < 0xc0 then true                                  -- C1 / continuation byte in lead position
+    else if b ≥ 0xf8 then true                                  -- no such lead byte
+    else if b < 0xe0 then
+      match rest with
+      | [] => true                                              -- truncated two-byte sequence
+      | c :: rest' =>
+        if b = 0xc2 ∧ 0x80 ≤ c ∧ c < 0xa0 then true             -- U+0080..U+009F
+        else if (b = 0xc2 ∨ b = 0xc3) ∧ 0x80 ≤ c ∧ c < 0xc0 ∧ (b = 0xc3 ∨ 0xa1 ≤ c) then rejectedText rest'
+        else false
+    else if b < 0xf0 then decide (rest.length < 2)              -- truncated three-byte sequence
+    else decide (rest.length < 3)                               -- truncated four-byte sequence
+
 /-! ## the copy-out calls as lists of stores -/
 
 structure CopyOut where
